@@ -2,6 +2,7 @@ package ksim
 
 import (
 	"fmt"
+	"time"
 	"reflect"
 	"strconv"
 	"strings"
@@ -180,6 +181,8 @@ type trafficOracle struct {
 	canarySvc string
 	orig      map[ObjKey]client.Object // user-owned network objects before the rollout (updated by user edits)
 	claimed   bool                     // a BatchRelease has claimed the workload (control annotation) at some point
+	canaryDeletedAt  time.Time
+	canaryDeletedGen int
 	fullStep  bool                     // a step covering every replica was executed (stable pods legitimately all replaced)
 	resetBR   bool                     // a continuous-release reset is in progress (gateway must be restored before capacity is released)
 }
@@ -275,6 +278,9 @@ func (o *trafficOracle) rollout(s *Sim) *v1beta1.Rollout {
 }
 
 func (o *trafficOracle) OnWrite(s *Sim, w *Write) {
+	if !o.sc.owns(w.Key) && w.Key.GK != gkConfigMap {
+		return
+	}
 	if o.sc.Traffic == "" || o.sc.Traffic == "none" {
 		return
 	}
@@ -307,6 +313,7 @@ func (o *trafficOracle) OnWrite(s *Sim, w *Write) {
 	}
 	o.checkVoid(s, w)
 	o.checkTrafficBackFirst(s, w)
+	o.checkGraceIsolation(s, w)
 }
 
 // ---- C03 T1: a positive share / match is written only in (k, StepTrafficRouting) with batch k ready
@@ -488,7 +495,7 @@ func (o *trafficOracle) checkVoid(s *Sim, w *Write) {
 			}
 		}
 	}
-	if ss != nil && ss.Spec.Selector[revKey] != "" && cur.Share < 100 && s.Cfg.PodKill == 0 {
+	if ss != nil && ss.Spec.Selector[revKey] != "" && cur.Share < 100 && s.Cfg.PodKill == 0 && !strings.Contains(s.firedEvents(), "scale") {
 		s.probe("c04.pinned-snapshots")
 		r := ss.Spec.Selector[revKey]
 		total, have := 0, 0
@@ -554,9 +561,42 @@ func (o *trafficOracle) checkTrafficBackFirst(s *Sim, w *Write) {
 	}
 }
 
+// ---- C19 I2: a rollout's grace period after removing its canary Service is not cut short by other rollouts.
+// (Only judged when several rollouts share the process; a restart legitimately forgets the in-memory timer.)
+func (o *trafficOracle) checkGraceIsolation(s *Sim, w *Write) {
+	if len(s.Users) < 2 || w.Actor != "rollout-ctrl" {
+		return
+	}
+	if w.Key.GK == gkService && w.Key.Name == o.canarySvc && w.Removed {
+		o.canaryDeletedAt = s.Now()
+		o.canaryDeletedGen = s.Proc.gen
+		return
+	}
+	if w.Key.GK != gkRollout || w.Old == nil || w.New == nil || o.canaryDeletedAt.IsZero() {
+		return
+	}
+	os, ns := w.Old.(*v1beta1.Rollout).Status.GetSubStatus(), w.New.(*v1beta1.Rollout).Status.GetSubStatus()
+	if os == nil || ns == nil || os.FinalisingStep != v1beta1.FinalisingStepRemoveCanaryService || ns.FinalisingStep == os.FinalisingStep {
+		return
+	}
+	ro := w.New.(*v1beta1.Rollout)
+	grace := 0
+	for _, t := range ro.Spec.Strategy.GetTrafficRouting() {
+		if int(t.GracePeriodSeconds) > grace {
+			grace = int(t.GracePeriodSeconds)
+		}
+	}
+	s.probe("c19.grace-checks")
+	if o.canaryDeletedGen == s.Proc.gen && grace > 0 && s.Now().Sub(o.canaryDeletedAt) < time.Duration(grace)*time.Second-50*time.Millisecond {
+		s.Violate("C19", "I2-grace", "I2/"+o.sc.Family+"/"+o.sc.Traffic, w.Seq, "rollout %s/%s left RemoveCanaryService %.1fs after deleting its canary Service although its grace period is %ds (other rollouts share the process)",
+			o.sc.NS, o.sc.Name, s.Now().Sub(o.canaryDeletedAt).Seconds(), grace)
+	}
+	o.canaryDeletedAt = time.Time{}
+}
+
 // ---- C05: every exit path leaves the cluster as the user configured it
 func (o *trafficOracle) OnEnd(s *Sim) {
-	if s.EndReason != "quiescent" || s.User == nil || !s.User.Released {
+	if s.EndReason != "quiescent" || o.sc.user == nil || !o.sc.user.Released {
 		return
 	}
 	ro := o.rollout(s)
@@ -573,13 +613,13 @@ func (o *trafficOracle) OnEnd(s *Sim) {
 		exit = "deleted"
 	case ro.Status.Phase == v1beta1.RolloutPhaseDisabled:
 		exit = "disabled"
-	case s.User.Version == 1:
+	case o.sc.user.Version == 1:
 		exit = "rolled-back"
 	}
 	fam := o.sc.Family + "/" + exit
-	if s.User.ExitNoBR {
+	if o.sc.user.ExitNoBR {
 		fam += "/no-batchrelease-at-exit"
-	} else if s.User.ExitUnclaimed {
+	} else if o.sc.user.ExitUnclaimed {
 		fam += "/batchrelease-unclaimed-at-exit"
 	}
 	bad := func(what, format string, a ...interface{}) {
@@ -587,7 +627,7 @@ func (o *trafficOracle) OnEnd(s *Sim) {
 	}
 	ns := o.sc.NS
 	for _, k := range s.Store.keys {
-		if k.NS != ns {
+		if k.NS != ns || !o.sc.owns(k) {
 			continue
 		}
 		obj := s.Store.objs[k]
@@ -602,7 +642,7 @@ func (o *trafficOracle) OnEnd(s *Sim) {
 			bad("canary-deployment", "canary Deployment %s still exists", k.Name)
 		}
 	}
-	wl := s.User.getWorkload()
+	wl := o.sc.user.getWorkload()
 	if wl != nil {
 		for _, a := range []string{inProgressAnno, controlAnno, v1alpha1.DeploymentStrategyAnnotation, v1beta1.OriginalDeploymentStrategyAnnotation} {
 			if _, ok := wl.GetAnnotations()[a]; ok {
@@ -638,7 +678,7 @@ func (o *trafficOracle) OnEnd(s *Sim) {
 			}
 		}
 		// hand-over: every pod runs the desired revision
-		want := fmt.Sprintf("app:v%d", s.User.Version)
+		want := fmt.Sprintf("app:v%d", o.sc.user.Version)
 		for _, k := range s.Store.keys {
 			if k.GK == gkPod && k.NS == ns {
 				p := s.Store.objs[k].(*corev1.Pod)
